@@ -32,6 +32,7 @@ type StandardClass struct {
 	pkg             *slip.Package
 	precedence      []slip.Symbol
 	defaultInitArgs map[string]slip.Object
+	allDefaultArgs  map[string]slip.Object // defaultInitArgs merged with the inherited ones, most specific wins
 	initArgs        map[string]*SlotDef   // map with keys of initargs
 	sharedInitArgs  map[string][]*SlotDef // the other slots of initargs declared for more than one slot
 	initForms       map[string]*SlotDef
@@ -415,6 +416,19 @@ func (c *StandardClass) mergeSupers() bool {
 			c.initForms[sd.name] = sd
 		}
 	}
+	// Default initargs are inherited. The default of the most specific class
+	// is the one used.
+	c.allDefaultArgs = map[string]slip.Object{}
+	for i := len(c.inherit) - 1; 0 <= i; i-- {
+		if sc, ok := c.inherit[i].(isStandardClass); ok {
+			for k, v := range sc.directDefaultsMap() {
+				c.allDefaultArgs[k] = v
+			}
+		}
+	}
+	for k, v := range c.defaultInitArgs {
+		c.allDefaultArgs[k] = v
+	}
 	c.precedence = make([]slip.Symbol, 0, len(c.inherit)+3)
 	c.precedence = append(c.precedence, slip.Symbol(c.name))
 	for _, ic := range c.inherit {
@@ -492,7 +506,18 @@ func (c *StandardClass) initFormMap() map[string]*SlotDef {
 	return c.initForms
 }
 
+// defaultsMap returns the default initargs of the class and of the inherited
+// classes.
 func (c *StandardClass) defaultsMap() map[string]slip.Object {
+	if c.allDefaultArgs == nil {
+		return c.defaultInitArgs
+	}
+	return c.allDefaultArgs
+}
+
+// directDefaultsMap returns the default initargs given in the definition of
+// the class itself.
+func (c *StandardClass) directDefaultsMap() map[string]slip.Object {
 	return c.defaultInitArgs
 }
 
